@@ -816,3 +816,16 @@ def r11(fx):
              got=(run([])[0], run(['--micro'])[0]), want=(False, True))
     for e_, want in (('-', None), ('l', 'L'), ('H', 'H'), ('q', 'Q')):
         yield ob(f'--error {e_}', run(['--error', e_])[2] == want, fn, got=run(['--error', e_])[2], want=want)
+
+
+@rule('C14', 'R12', 30, 'a requested version that cannot hold the content is refused (DataOverflowError, a ValueError), never silently kept: every requested version against every smallest fitting version (C04.R4)')
+def r12(fx):
+    yield from p04.r4(fx)
+
+
+@rule('C14', 'R13', 12, 'CLI: the serialiser options given on the command line are honoured whatever the letter case of the output file extension (C12.R3)')
+def r13(fx):
+    from . import p12
+    for o in p12.r3(fx):
+        if 'same configuration for every letter case' in o.key or o.key.startswith('flags reach'):
+            yield o
